@@ -77,7 +77,8 @@ let parse_fields s =
     | _ -> failwith "fields") (split_on ';' s)
 let run_ws (c : cur) (impl : string list) : string * string =
   let ops = rep (count c) (fun () ->
-    match next c with
+    (* vk@t2 etc.: the suffix is the provenance of the collection handed to the setter (harness side only) *)
+    match List.hd (String.split_on_char '@' (next c)) with
     | "vk" -> SetVkeys (rep (count c) (fun () -> bytes_tok c))
     | "ns" -> SetNative (rep (count c) (fun () -> bytes_tok c))
     | "bs" -> SetBoot (rep (count c) (fun () -> bytes_tok c))
